@@ -619,7 +619,9 @@ def tasks(tier):
     ts += bulk_tasks('C03')
     ts += [('contracts.c10', 'peekitem_task', ('C03', True)), ('contracts.c10', 'peekitem_task', ('C03', False)),
            ('contracts.c10', 'accessors_task', ('C03',)),
-           ('contracts.iteration', 'iter_task', ('C03', True)), ('contracts.iteration', 'iter_task', ('C03', False))]
+           ('contracts.iteration', 'iter_task', ('C03', True)), ('contracts.iteration', 'iter_task', ('C03', False)),
+           ('contracts.iteration', 'iterkeys_task', ('C03', False)), ('contracts.iteration', 'iterkeys_task', ('C03', True)),
+           ('contracts.iteration', 'dbval_order_lemma', ())]
     return ts
 
 
